@@ -1,5 +1,278 @@
-import SophiaModel.Model.Heap
+/-
+C10 — clones of in-memory stores are independent and memory-safe.
+
+Model: SophiaModel/Model/Heap.lean (ownership model: heap of allocations, owning / borrowing
+`MownStr`s, `SimpleTermIndex`, stores, worlds of named stores, `World.step ck` with the `Clone`
+the source defines: `ck = Gen.cloneKind`, regenerated from inmem/src/index.rs on every run).
+Lemmas: SophiaProofs/Lemmas/{HeapBasic,HeapIndex,HeapWorld}.lean.
+
+The theorems are about `World.step` / `World.run`, the very functions the driver `smd_C10`
+executes.  What is proved is a statement about the OWNERSHIP MODEL; that rustc / std / mownstr
+behave as the model says is the trusted part, tied to the code by the differential check
+(hook `verif_audit` + content of every readable store after every operation).
+-/
+import SophiaProofs.Lemmas.HeapWorld
+import SophiaProofs.Lemmas.StoreQuery
 import SophiaModel.Gen.CloneKind
+
 namespace SophiaProofs.C10
-open SophiaModel SophiaModel.Heap
+open SophiaModel SophiaModel.Term SophiaModel.Store SophiaModel.Heap SophiaProofs.HeapP SophiaProofs.StoreP
+
+/-! ### the invariant -/
+
+/-- the empty world satisfies the invariant -/
+theorem winv_init : WInv {} := WInv.init
+
+/-- `sc_preserved`: with the MANUAL `Clone`, every operation (insert, ensure_index, remove, clone,
+clone_from, drop, swap, move, Box, mem::take, growth, iteration) on any world of stores preserves:
+every store's `i2t` is self-contained (borrowed strings point into buffers owned by keys of the SAME
+store), keys own their buffers, no buffer has two owners (inside a store or across stores), owned
+buffers are live, `i2t` and `t2i` are in sync, and no UB has happened. -/
+theorem sc_preserved {w : World} (inv : WInv w) (op : Op) : WInv (World.step .manual w op).1 := inv.step op
+
+/-- in particular every live store is `SelfContained` (the Bool the driver reports as audit) -/
+theorem winv_self_contained {w : World} (inv : WInv w) {e : Nat × HStore} (he : e ∈ w.stores) :
+    SelfContained e.2.ix ∧ e.2.ix.selfContained = true :=
+  ⟨(inv.ix e he).sc, (selfContained_iff _).2 (inv.ix e he).sc⟩
+
+/-- the audit vector the hook `verif_audit` computes (model: `TIndex.audit`) decides self-containment:
+if every entry is `(found, inside) = (true, true)` the index is `SelfContained` -/
+theorem audit_clean_self_contained (ix : TIndex) (h : ∀ p ∈ ix.audit, p = (true, true)) : SelfContained ix := by
+  intro t ht r hr
+  obtain ⟨i, hi, hti⟩ := List.getElem_of_mem ht
+  have hm : ix.auditEntry i ∈ ix.audit := List.mem_map.2 ⟨i, List.mem_range.2 hi, rfl⟩
+  have ha := h _ hm
+  unfold TIndex.auditEntry at ha
+  rw [List.getElem?_eq_getElem hi, hti] at ha
+  cases hk : ix.keyAt i with
+  | none => simp [hk] at ha
+  | some k =>
+    simp only [hk, Prod.mk.injEq, Bool.and_eq_true] at ha
+    have hin := ha.2.2
+    simp only [insideKey, List.all_eq_true, Bool.or_eq_true, beq_iff_eq, List.contains_eq_mem,
+      decide_eq_true_eq] at hin
+    unfold TIndex.keyAt at hk
+    cases hf : ix.t2i.find? (fun e => e.2 == i) with
+    | none => simp [hf] at hk
+    | some e =>
+      rw [hf] at hk
+      simp only [Option.map_some, Option.some.injEq] at hk
+      have hem := List.mem_of_find?_eq_some hf
+      rcases hin r hr with (h1 | h1) | h1
+      · exact Or.inl h1
+      · exact Or.inr (Or.inl h1)
+      · exact Or.inr (Or.inr (mem_keyIds hem (hk ▸ h1)))
+
+/-- non-vacuity: a world with a store, its clone and a swapped / boxed copy satisfies the invariant -/
+example : WInv (World.run .manual {} [.new 0 ⟨0, [], []⟩ 9, .ens 0 (.lit ['a'] ['d']),
+    .ens 0 (.triple (.iri ['s']) (.iri ['p']) (.lang [] ['e', 'n'])), .clone 0 1, .swap 0 1, .box 1, .drop 0]) :=
+  WInv.init.run _
+
+/-- what "safe" means for a world: no UB so far, and every string of every `i2t` entry of every
+live store dereferences into a LIVE allocation -/
+def Safe (w : World) : Prop :=
+  w.heap.ub = false ∧
+  ∀ e ∈ w.stores, ∀ t ∈ e.2.ix.i2t, ∀ r ∈ t.refs, ∃ s, w.heap.deref r = some s
+
+theorem safe_of_winv {w : World} (inv : WInv w) : Safe w :=
+  ⟨inv.ub, fun e he _ ht _ hr => (inv.ix e he).entry_deref ht hr⟩
+
+/-- `no_dangling`: for ALL histories — any interleaving of insert / remove / clone / clone_from / drop
+of the original or of the clone / swap / move / Box / take / growth / iteration, on any number of
+stores of any shape and index width — every read of a live store hits a live allocation, nothing is
+released twice, iterating (`readAll`) is never UB.  Manual `Clone`. -/
+theorem no_dangling (ops : List Op) : Safe (World.run .manual {} ops) :=
+  safe_of_winv (WInv.init.run ops)
+
+/-- iterating any live store right after any history is not UB and reads every entry -/
+theorem read_after_history (ops : List Op) (a : Nat) {s : HStore}
+    (hg : (World.run .manual {} ops).get a = some s) :
+    s.readable (World.run .manual {} ops).heap = true ∧
+    (World.step .manual (World.run .manual {} ops) (.readAll a)).1.heap.ub = false :=
+  ⟨readable_of_inv ((WInv.init.run ops).ix _ (get_mem hg)), ((WInv.init.run ops).step (.readAll a)).ub⟩
+
+example : Safe (World.run .manual {} [.new 0 ⟨0, [], []⟩ 9, .ens 0 (.iri ['x']), .clone 0 1, .drop 0, .readAll 1]) :=
+  no_dangling _
+
+/-! ### clones are independent -/
+
+/-- `clone_independent`, part 1 (at clone time): the manual `Clone` of a store never panics; the
+original is untouched; the clone has the same rows, and its `i2t` reads — entry by entry, in the heap
+where both exist — `Term::eq`-equal to the original's. -/
+theorem clone_same_content {w : World} (inv : WInv w) {a b : Nat} {s : HStore}
+    (ha : w.get a = some s) (hb : w.get b = none) :
+    ∃ w' c, World.step .manual w (.clone a b) = (w', .ok) ∧ w'.get b = some c ∧ w'.get a = some s ∧
+      c.idx = s.idx ∧ c.shape = s.shape ∧ c.max = s.max ∧
+      Pointwise (SameRead w'.heap) s.ix.i2t c.ix.i2t := by
+  obtain ⟨h', c, hc, _, _, _, _, hp, h1, h2, h3⟩ := cloneStore_manual_spec (inv.ix _ (get_mem ha))
+  have hab : a ≠ b := fun e => by rw [e, hb] at ha; cases ha
+  refine ⟨({ w with heap := h' } : World).add b c, c, ?_, ?_, ?_, h1, h2, h3, hp⟩
+  · simp only [World.step, ha, hb, hc]
+  · exact get_of_mem ((inv.step (.clone a b)).names |> fun h => by
+      simpa only [World.step, ha, hb, hc] using h) (by simp [World.add])
+  · rw [get_add_other _ _ hab]; exact ha
+
+/-- `clone_independent`, part 2 (afterwards): an operation that does not name a store changes neither
+which value the name is bound to nor what any of its entries reads — whatever happens to the
+others: mutation, growth, drop of the original or of the clone, moves. -/
+theorem clone_independent {w : World} (inv : WInv w) (op : Op) {n : Nat} {s : HStore}
+    (hn : n ∉ opNames op) (hg : w.get n = some s) :
+    (World.step .manual w op).1.get n = some s ∧
+    ∀ t ∈ s.ix.i2t, readTerm? (World.step .manual w op).1.heap t = readTerm? w.heap t := by
+  refine ⟨by rw [step_get_other _ _ _ hn]; exact hg, fun t ht => ?_⟩
+  have hm := get_mem hg
+  exact (inv.ix _ hm).read_same (step_same_other inv op hm hn) ht
+
+/-- … and along a whole history that never names the store -/
+theorem clone_independent_run {w : World} (inv : WInv w) (ops : List Op) {n : Nat} {s : HStore}
+    (hn : ∀ op ∈ ops, n ∉ opNames op) (hg : w.get n = some s) :
+    (World.run .manual w ops).get n = some s ∧
+    ∀ t ∈ s.ix.i2t, readTerm? (World.run .manual w ops).heap t = readTerm? w.heap t := by
+  induction ops generalizing w with
+  | nil => exact ⟨hg, fun _ _ => rfl⟩
+  | cons op ops ih =>
+    obtain ⟨h1, h2⟩ := clone_independent inv op (hn op (List.mem_cons_self ..)) hg
+    obtain ⟨h3, h4⟩ := ih (inv.step op) (fun o ho => hn o (List.mem_cons_of_mem _ ho)) h1
+    exact ⟨h3, fun t ht => by rw [show World.run .manual w (op :: ops) = World.run .manual (World.step .manual w op).1 ops from rfl,
+      h4 t ht, h2 t ht]⟩
+
+/-- non-vacuity of the hypotheses: store `1` (a clone) is not named by dropping `0` (its original) -/
+example : (1 : Nat) ∉ opNames (.drop 0) := by decide
+
+/-! ### the derived `Clone`: the same statement is FALSE -/
+
+def tiShape : Shape := ⟨0, [], []⟩
+
+/-- one empty `SimpleTermIndex` named `0` -/
+def w0 : World := (World.step .derived {} (.new 0 tiShape 9)).1
+
+/-- the 3-step history: insert one IRI; clone; drop the original -/
+def witness : List Op := [.ens 0 (.iri ['x']), .clone 0 1, .drop 0]
+
+/-- `derive_clone_dangles`: with `#[derive(Clone)]` there is a history of length 3 (insert; clone;
+drop the original) after which the clone is live, its only `i2t` entry points into a RELEASED
+allocation (the original's key), it is not self-contained already right after `clone`, and
+iterating it is UB.  Kernel-checked by evaluation of the model. -/
+theorem derive_clone_dangles :
+    ∃ ops : List Op, ops.length = 3 ∧
+      (∃ c, (World.run .derived w0 ops).get 1 = some c ∧
+        c.ix.selfContained = false ∧
+        c.readable (World.run .derived w0 ops).heap = false ∧
+        (∃ t ∈ c.ix.i2t, ∃ r ∈ t.refs, (World.run .derived w0 ops).heap.deref r = none)) ∧
+      (World.run .derived w0 ops).heap.ub = false ∧
+      (World.step .derived (World.run .derived w0 ops) (.readAll 1)).1.heap.ub = true ∧
+      -- latent already before the original goes
+      (∃ c, (World.run .derived w0 (ops.take 2)).get 1 = some c ∧ c.ix.selfContained = false) :=
+  ⟨witness, by decide⟩
+
+/-- hence `no_dangling` fails for the derived `Clone` -/
+theorem derive_not_safe : ¬ ∀ ops, Safe (World.run .derived {} ops) := by
+  intro h
+  obtain ⟨_, hs⟩ := h (.new 0 tiShape 9 :: witness)
+  have hw : ∃ e ∈ (World.run .derived {} (.new 0 tiShape 9 :: witness)).stores, ∃ t ∈ e.2.ix.i2t,
+      ∃ r ∈ t.refs, (World.run .derived {} (.new 0 tiShape 9 :: witness)).heap.deref r = none := by decide
+  obtain ⟨e, he, t, ht, r, hr, hd⟩ := hw
+  obtain ⟨s, hs'⟩ := hs e he t ht r hr
+  rw [hd] at hs'; cases hs'
+
+/-- the same history with the manual `Clone`: the clone owns what it points to -/
+example : ∃ c, (World.run .manual w0 witness).get 1 = some c ∧ c.ix.selfContained = true ∧
+    c.readable (World.run .manual w0 witness).heap = true := by decide
+
+/-! ### the property over the GENERATED clone kind -/
+
+/-- `c10_holds`: if the source defines `Clone for SimpleTermIndex` manually (the shape recognised by
+tools/extractors/c10.py), the property holds for every history of the model the driver runs -/
+theorem c10_holds (hk : Gen.cloneKind = .manual) (ops : List Op) : Safe (World.run Gen.cloneKind {} ops) := by
+  rw [hk]; exact no_dangling ops
+
+/-- what the CURRENT tree has (re-checked against the regenerated `Gen.cloneKind` on every run):
+either the manual `Clone` and the property holds for all histories, or the derived one and the
+3-step history refutes it. -/
+theorem c10_verdict :
+    (Gen.cloneKind = .manual ∧ ∀ ops, Safe (World.run Gen.cloneKind {} ops)) ∨
+    (Gen.cloneKind = .derived ∧ ¬ ∀ ops, Safe (World.run Gen.cloneKind {} ops)) := by
+  cases hk : Gen.cloneKind with
+  | manual => exact Or.inl ⟨rfl, no_dangling⟩
+  | derived => exact Or.inr ⟨rfl, derive_not_safe⟩
+
+/-! ### the other `unsafe` sites of the anchored files -/
+
+/-- `unwrap_unchecked_safe` (inmem/src/dataset/_iter.rs, `BcdMatchingIterator::boxed` /
+`CdMatchingIterator::boxed`): in every state satisfying C01's representation invariant, for every
+arm whose table obligations hold and every row of the index it scans, the canonical quad
+`to_gspo(row)` is a stored primary row and its `s`, `p`, `o` names — the values handed to
+`unwrap_unchecked` — are `Some` (corollary of (I3): their components are valid term indices). -/
+theorem unwrap_unchecked_safe {s : St} (h : Inv s) {arm : Arm}
+    (hF : ArmFacts s.shape.n (s.shape.perms.getD arm.index []) arm)
+    {ix : List Row} (hix : s.idx[arm.index]? = some ix) {r : Row} (hr : r ∈ ix) :
+    toCanon arm.out r ∈ s.idx.getD 0 [] ∧
+    ∀ pos, pos < s.shape.n → isGPos s.shape.n pos = false →
+      ∃ t, (namesOfRow s (toCanon arm.out r))[pos]? = some (some t) := by
+  obtain ⟨c, hc, rfl⟩ := (h.same arm.index ix hix r).1 hr
+  have hrow := h.rows_ok c hc
+  have hcan : toCanon arm.out (layout (s.shape.perms.getD arm.index []) c) = c :=
+    toCanon_layout' _ _ _ c hrow.1 hF.out
+  rw [hcan]
+  refine ⟨hc, fun pos hpos hg => ?_⟩
+  have hlt : pos < c.length := by rw [hrow.1]; exact hpos
+  have hv := hrow.2 pos c[pos] (List.getElem?_eq_getElem hlt)
+  have hvl : c[pos] < s.terms.length := by
+    rcases hv with hv | ⟨hg', _⟩
+    · exact hv
+    · rw [hg] at hg'; cases hg'
+  refine ⟨s.terms[c[pos]], ?_⟩
+  simp [namesOfRow, hpos, hg, List.getD_eq_getElem?_getD, List.getElem?_eq_getElem hlt,
+    List.getElem?_eq_getElem hvl]
+
+/-- … instantiated for the GENERATED tables: every arm of every shipped store type -/
+theorem unwrap_unchecked_safe_gen {d : StoreDesc} {s : St}
+    (hd : d = Gen.genericLightDataset ∨ d = Gen.genericFastDataset ∨ d = Gen.genericLightGraph ∨
+      d = Gen.genericFastGraph)
+    (hs : s.shape = d.shape) (h : Inv s) {arm : Arm} (ha : arm ∈ d.arms)
+    {ix : List Row} (hix : s.idx[arm.index]? = some ix) {r : Row} (hr : r ∈ ix) :
+    ∀ pos, pos < s.shape.n → isGPos s.shape.n pos = false →
+      ∃ t, (namesOfRow s (toCanon arm.out r))[pos]? = some (some t) := by
+  have hok : descOK d = true := by
+    rcases hd with rfl | rfl | rfl | rfl <;> decide
+  obtain ⟨hn, harms, _⟩ := descOK_spec hok
+  have hperm : IsPerm d.n (d.insertLayouts.getD arm.index []) = true := by
+    have hlt : arm.index < s.idx.length := (List.getElem?_eq_some_iff.1 hix).1
+    rw [h.idx_len, hs] at hlt
+    change arm.index < d.insertLayouts.length at hlt
+    have hmem : d.insertLayouts.getD arm.index [] ∈ d.shape.perms := by
+      show d.insertLayouts.getD arm.index [] ∈ d.insertLayouts
+      rw [List.getD_eq_getElem?_getD, List.getElem?_eq_getElem hlt]; exact List.getElem_mem _
+    have := (List.all_eq_true.1 h.shape_ok.1) (d.insertLayouts.getD arm.index []) (by rw [hs]; exact hmem)
+    rw [hs] at this; exact this
+  obtain ⟨_, hF⟩ := armFacts_of_armOK (harms arm ha) hn hperm
+  have hF' : ArmFacts s.shape.n (s.shape.perms.getD arm.index []) arm := by rw [hs]; exact hF
+  exact (unwrap_unchecked_safe h hF' hix hr).2
+
+/-- `ensure_owned_sound` (api/src/term/_simple.rs, the `transmute` of an owned `MownStr` to
+`'static`): whichever branch is taken, the returned string OWNS a buffer that did not exist before
+the call (so it borrows nothing restricted to the argument's lifetime), that buffer is live, and it
+holds the argument's bytes; the `transmute` branch (`m.is_owned()`) is only reached after the deep
+`clone`, and dropping the argument afterwards releases a DIFFERENT buffer. -/
+theorem ensure_owned_sound (h : Heap.Heap) (m : StrRef) (s : Str) (hm : h.deref m = some s)
+    (hl : m.owned = true → Live h m.a) :
+    let r := ensureOwned h m
+    r.2.owned = true ∧ r.2.a = h.cells.size ∧ (m.owned = true → r.2.a ≠ m.a) ∧ Live r.1 r.2.a ∧
+    r.1.deref r.2 = some s ∧ r.1.ub = h.ub := by
+  have hne : m.owned = true → h.cells.size ≠ m.a := fun ho e => by
+    have := (hl ho).lt; omega
+  simp only [ensureOwned, read_of_deref hm]
+  cases ho : m.owned with
+  | true =>
+    simp only [if_true]
+    have hl' : Live (h.alloc s).1 m.a := (hl ho).ext (alloc_ext h s)
+    refine ⟨rfl, rfl, fun _ => hne ho, ?_, ?_, ?_⟩
+    · exact (alloc_live h s).same (free_get_other _ (Ne.symm (hne ho)))
+    · rw [deref_same (h := (h.alloc s).1) (Or.inr (free_get_other _ (Ne.symm (hne ho))))]
+      exact deref_alloc h s
+    · rw [free_ub_of_live hl']; rfl
+  | false =>
+    simp only [Bool.false_eq_true, if_false]
+    exact ⟨rfl, rfl, fun h1 => False.elim h1, alloc_live h s, deref_alloc h s, rfl⟩
+
 end SophiaProofs.C10
